@@ -3,7 +3,9 @@
 //!
 //!   lmconform record <PROP> <out.ndjson> [--seed N] [--thorough]   impl -> spec: run drivers, log events
 //!   lmconform replay <PROP> <file>                                 spec -> impl: step TLC behaviours
+mod c04;
 mod c19;
+mod pipe;
 mod util;
 
 use serde_json::json;
@@ -36,6 +38,7 @@ fn main() {
             let mut rec = util::Recorder::create(file);
             match prop {
                 "C19" => c19::record(&mut rec, seed, thorough),
+                "C04" => c04::record(&mut rec, seed, thorough),
                 _ => {
                     eprintln!("unknown property {}", prop);
                     std::process::exit(2);
@@ -46,6 +49,7 @@ fn main() {
         "replay" => {
             let out = match prop {
                 "C19" => c19::replay(file),
+                "C04" => c04::replay(file),
                 _ => {
                     eprintln!("unknown property {}", prop);
                     std::process::exit(2);
